@@ -1117,6 +1117,84 @@ def comp_own(prop, tier, comp, work):
 
 
 # --------------------------------------------------------------------------------------------
+# R-EVAL (C10) on instantiations of evaluator_t<view, none_t, resolver>: the default evaluator copies
+# view -> output index-for-index over ndindex(shape(view)), only after the shapes were found equal, and the
+# allocating overload resizes the result to shape(view) before the copy and returns that object.
+# --------------------------------------------------------------------------------------------
+def rule_eval(rows, prop):
+    findings, samples, n = [], [], 0
+    seen = set()
+    SHAPE_O, SHAPE_V = "nmtools::shape($output)", "nmtools::shape(this.view)"
+    for r in rows:
+        if "fn" not in r or not r.get("cfg") or not re.search(r"evaluator_t<.*>::operator\(\)$", r["fn"]) and not r["fn"].endswith("evaluator_t::operator()"):
+            continue
+        if "/array/eval.hpp" not in r["file"] or "none_t" not in r.get("sig", "") and "none_t" not in r.get("class", ""):
+            continue
+        params = [p["name"] for p in r["params"]]
+        key = (r["line"], r.get("sig", "")[:600])
+        if key in seen:
+            continue
+        seen.add(key)
+        locs, _ = single_def_locals(r)
+        sub = lambda e: subst_locals(e, locs)
+        facts = r["facts"]
+        if params == ["output"] and any(f["k"] == "loop" for f in facts):
+            n += 1
+            copies = [f for f in facts if f["k"] == "assign" and f["a"].startswith("nmtools::apply_at(")]
+            if len(copies) != 1:
+                findings.append(finding("R-EVAL.copy", prop, r, "loop", "expected exactly one element copy in the evaluator loop, found %d" % len(copies))); continue
+            c = copies[0]
+            lhs, rhs = sub(c["a"]), sub(c["b"])
+            want_l = "nmtools::apply_at($output,nmtools::index::ndindex(%s)[%%i])" % SHAPE_O
+            want_r = "nmtools::apply_at(this.view,nmtools::index::ndindex(%s)[%%i])" % SHAPE_V
+            if lhs != want_l or rhs != want_r:
+                findings.append(finding("R-EVAL.copy", prop, r, "%s = %s" % (c["a"], c["b"]), "element copy is %s = %s; expected output[ndindex(shape(output))[i]] = view[ndindex(shape(view))[i]] with one induction variable" % (lhs, rhs), c.get("line")))
+            loops = [f for f in facts if f["k"] == "loop"]
+            bound = sub(loops[0]["b"])
+            if bound != "(%%i < nmtools::index::ndindex(%s).size())" % SHAPE_V:
+                findings.append(finding("R-EVAL.bound", prop, r, loops[0]["b"], "copy loop runs while %s, expected i < ndindex(shape(view)).size()" % bound, loops[0].get("line")))
+            want_g = "(!nmtools::utils::isequal(%s,%s))" % (SHAPE_O, SHAPE_V)
+            g = set((sub(x["cond"]).replace(" ", ""), x["pol"]) for x in expand_guards(c.get("g", [])))
+            if (want_g, 0) not in g:
+                findings.append(finding("R-EVAL.guard", prop, r, c["a"], "element copy is not preceded by the shape-equality test of output and view", c.get("line")))
+            rets = [f for f in facts if f["k"] == "return"]
+            for rt in rets:
+                gr = set((sub(x["cond"]).replace(" ", ""), x["pol"]) for x in expand_guards(rt.get("g", [])))
+                if (want_g, 1) not in gr:
+                    findings.append(finding("R-EVAL.guard", prop, r, "return", "early return of the evaluator is not the shape-mismatch exit; guards: %s" % sorted(gr)[:3], rt.get("line")))
+            if len(samples) < 2:
+                samples.append("R-EVAL %s = %s" % (lhs, rhs))
+        elif params == []:
+            n += 1
+            rs = [f for f in facts if f["k"] == "call" and f["a"].endswith("apply_resize")]
+            calls = [f for f in facts if f["k"] == "call" and f["b"].replace(" ", "") == "(*this)(%output)"]
+            rets = [f["a"] for f in facts if f["k"] == "return"]
+            if rets != ["%output"] or not calls:
+                findings.append(finding("R-EVAL.alloc", prop, r, "operator()()", "allocating overload does not copy into and return its local result (returns %s, copy call present: %s)" % (rets, bool(calls))))
+            sub2 = lambda e: subst_locals(e, {k: v for k, v in locs.items() if k != "output"})
+            for x in rs:
+                if sub2(x["b"]) != "nmtools::detail::apply_resize(%%output,%s)" % SHAPE_V:
+                    findings.append(finding("R-EVAL.resize", prop, r, x["b"], "result is resized with %s, expected apply_resize(output, shape(view))" % sub2(x["b"]), x.get("line")))
+                elif calls and not (x.get("line", 0) < calls[0].get("line", 0)):
+                    findings.append(finding("R-EVAL.resize", prop, r, x["b"], "resize does not precede the copy", x.get("line")))
+            if "is_resizable" in " ".join(g_.get("cond", "") for x in facts for g_ in x.get("g", [])) and not rs:
+                findings.append(finding("R-EVAL.resize", prop, r, "operator()()", "resizable result is never resized to shape(view)"))
+    return findings, n, samples
+
+
+def comp_eval(prop, tier, comp, work):
+    t0 = time.time()
+    tu = os.path.join(VERIF, "drivers", "maybe_inst.cpp")
+    rows, err, cmd = run_nmlint(tu, filters=["/include/nmtools/array/eval.hpp"], inst=True, cfg=True)
+    out = dict(broken=[], units=1, functions=len(rows), cmd=cmd)
+    if err:
+        out["broken"].append(err); return out
+    f, n, samples = rule_eval(rows, prop)
+    out.update(findings=f, instances={"R-EVAL": n}, evaluations=n, distinct_nontrivial=n - len(set((x["instantiation"], x["line"]) for x in f)), samples=samples, wall_s=round(time.time() - t0, 2))
+    return out
+
+
+# --------------------------------------------------------------------------------------------
 # driver
 # --------------------------------------------------------------------------------------------
 def run(prop, tier, spec, jobs=16):
@@ -1156,4 +1234,4 @@ def comp_fwd_array(prop, tier, comp, work):
     return out
 
 
-RULES = {"R-FWD.array": comp_fwd_array, "R-FWD.functional": comp_fwd_functional, "R-UFUNC": comp_ufunc, "R-KSIB": comp_ksib, "R-SIMD": comp_simd, "R-CONSTBRANCH": comp_constbranch, "R-TRAITPROV": comp_traitprov, "R-MAYBE-DIV": comp_maybe_div, "R-OWN": comp_own}
+RULES = {"R-FWD.array": comp_fwd_array, "R-FWD.functional": comp_fwd_functional, "R-UFUNC": comp_ufunc, "R-KSIB": comp_ksib, "R-SIMD": comp_simd, "R-CONSTBRANCH": comp_constbranch, "R-TRAITPROV": comp_traitprov, "R-MAYBE-DIV": comp_maybe_div, "R-OWN": comp_own, "R-EVAL": comp_eval}
